@@ -121,7 +121,15 @@ fn check(prop: &'static str, tier: Tier) -> i32 {
         );
         return 2;
     }
-    if agg.evaluations != total {
+    if agg.stopped_early {
+        println!(
+            "batch stopped after {} failing runs ({} of {} planned runs evaluated): enough evidence, and every abandoned execution costs memory",
+            agg.failures.len().max(1),
+            agg.evaluations,
+            total
+        );
+    }
+    if agg.evaluations != total && !agg.stopped_early {
         println!(
             "harness error: {} of {} planned runs were evaluated (worker threads lost their results); nothing this batch reports can be believed",
             agg.evaluations, total
@@ -319,8 +327,21 @@ fn supervise_check(prop: &'static str, tier: Tier, args: &[String]) -> i32 {
     let mut lines = Vec::new();
     for idx in suspects {
         let one = vec!["one".to_string(), prop.to_string(), "--tier".to_string(), tier.name().to_string(), "--index".to_string(), idx.to_string()];
+        let one_out = dir.join(format!(".one-{}-{}", std::process::id(), idx));
+        std::env::set_var("VSIM_ONE_OUT", &one_out);
         let r = run_child(&one, None, limit);
-        let (clause, detail) = match r {
+        std::env::remove_var("VSIM_ONE_OUT");
+        let verdict: Option<(String, String)> = std::fs::read_to_string(&one_out).ok().and_then(|t| serde_json::from_str::<Value>(&t).ok()).and_then(|v| {
+            Some((v.get("clause")?.as_str()?.to_string(), v.get("detail")?.as_str()?.to_string()))
+        });
+        let _ = std::fs::remove_file(&one_out);
+        let owned: (String, String);
+        let (clause, detail): (&str, String) = match r {
+            // the batch died, but run alone this case comes to an end - and violates the property
+            ChildEnd::Exit(1) if verdict.is_some() => {
+                owned = verdict.unwrap();
+                (owned.0.as_str(), format!("{} (found when the runs that were in flight were repeated alone, after {})", owned.1, why))
+            }
             ChildEnd::Exit(_) => continue,
             ChildEnd::Signal(sig) => (
                 "process-crash",
@@ -392,6 +413,9 @@ fn one(prop: &'static str, tier: Tier, index: u64) -> i32 {
     let r = eval(&case);
     for v in &r.violations {
         println!("  {} {}: {}", v.prop, v.clause, v.detail);
+    }
+    if let (Ok(path), Some(v)) = (std::env::var("VSIM_ONE_OUT"), r.violations.iter().find(|v| v.prop == prop)) {
+        let _ = std::fs::write(path, json!({"clause": v.clause, "detail": v.detail}).to_string());
     }
     if r.violations.iter().any(|v| v.prop == prop) {
         1
